@@ -66,8 +66,12 @@ func SchemaRef() {
 	ok, want := RefSchema(sig, Liberties{})
 	if (err == nil) != ok {
 		acc := err == nil
+		single := false
 		try := func(id string, toks []Tok, lib Liberties) {
 			o, _ := RefSchema(toks, lib)
+			if o == acc {
+				single = true
+			}
 			verifrt.Known(id, o == acc)
 		}
 		try("KF-C06-empty-document", sig, Liberties{EmptyDocument: true})
@@ -77,11 +81,14 @@ func SchemaRef() {
 		try("KF-C06-extend-interface-implements", sig, Liberties{NoExtendIfaceImplement: true})
 		try("KF-C06-enum-value-keyword", sig, Liberties{EnumValueKeyword: true})
 		try("KF-C06-empty-description-before-extend", sig, Liberties{EmptyDescBeforeExtend: true})
-		// several of the listed findings in one input
-		try("KF-C06-combination", StringKeywordsAsNames(sig), Liberties{EmptyDocument: true, SchemaWithoutOpTypes: true, ExtendInputNonConst: true,
-			NoExtendIfaceImplement: true, EnumValueKeyword: true, EmptyDescBeforeExtend: true})
-		try("KF-C06-combination", StringKeywordsAsNames(sig), Liberties{EmptyDocument: true, SchemaWithoutOpTypes: true, ExtendInputNonConst: true,
-			EnumValueKeyword: true, EmptyDescBeforeExtend: true})
+		if !single {
+			// several of the listed findings in one input
+			all := Liberties{EmptyDocument: true, SchemaWithoutOpTypes: true, ExtendInputNonConst: true, EnumValueKeyword: true, EmptyDescBeforeExtend: true}
+			oa, _ := RefSchema(StringKeywordsAsNames(sig), all)
+			all.NoExtendIfaceImplement = true
+			ob, _ := RefSchema(StringKeywordsAsNames(sig), all)
+			verifrt.Known("KF-C06-combination", oa == acc || ob == acc)
+		}
 	}
 	verifrt.Assert((err == nil) == ok, "C06.accepts-iff-derivable")
 	if err != nil || !ok {
